@@ -53,7 +53,7 @@ def _assign_value(f, env, rv, b, i):
     if k == "bin" and rv["op"] in _CMP:
         return ("atom", Atom("cmp", b, rv["op"], [rv["a"], rv["b"]], stmt=(b, i)), False)
     if k == "un" and rv.get("op") == "Not":
-        l = op_local(rv["o"]) if rv["o"]["k"] != "const" else None
+        l = op_local(rv["a"]) if rv["a"]["k"] != "const" else None
         v = env.get(l) if l is not None else None
         if v is None:
             return None
